@@ -550,7 +550,23 @@ def r7_fit_model_forwards(ctx):
             "kwargs else self.preprocessing_options")
     bad_or = o_ is not None and any(isinstance(x, ast.BoolOp) and isinstance(
         x.op, ast.Or) for x in ast.walk(R.resolve(o_)))
-    ctx.check(ot in good and not bad_or, c, f"options forwarded: {ot[:70]}",
+    split_ok = False
+    if isinstance(o_, ast.Name) and hasattr(o_, "_parent"):
+        vs = R.reaching_values(o_)
+        if vs and len(vs) == 2:
+            got = set()
+            for v in vs:
+                st = getattr(v, "_parent", None)
+                pres = [a.pol for a in conditions_at(st)
+                        if a.text == "'preprocessing_options' in kwargs"] \
+                    if st is not None else []
+                got.add((R.text(v), pres[-1] if pres else None))
+            split_ok = got == {("kwargs['preprocessing_options']", True),
+                               ("self.preprocessing_options", False)}
+            if split_ok:
+                ot = "given options if present else the remembered ones"
+    ctx.check((ot in good or split_ok) and not bad_or, c,
+              f"options forwarded: {ot[:70]}",
               "fit_model replaces explicitly given preprocessing options by "
               "the remembered ones when they are falsy (an explicit {} is "
               "not the same as 'not given'): the columns then depend on the "
